@@ -7,6 +7,7 @@ import (
 	"io"
 	"io/fs"
 	"log/slog"
+	"math"
 	"os"
 	"path/filepath"
 
@@ -226,6 +227,12 @@ func (h *Handler) HandleReadFile(ctx *Context, limit uint32, offset uint64, wr s
 
 	if ctx.State.ROFile == nil {
 		return fmt.Errorf("no file opened")
+	}
+
+	if offset > math.MaxInt64 {
+		// can't be expressed as file offset, but it's surely after the end of any file: nothing to read there
+		wr.WriteHeader(0)
+		return nil
 	}
 
 	var buf bytes.Buffer
